@@ -58,3 +58,19 @@ def canary_skip_reports_requested():
 
 
 R.canaries.append(("variants.py:canary#prefix-length-reports-requested-length-at-skip", canary_skip_reports_requested))
+
+
+def CROSSCHECK():
+    from vcgen.crosscheck import Case
+
+    def gen(rng):
+        cigar = [(rng.choice([0, 0, 0, 1, 2, 3, 4, 5, 7, 8]), rng.randint(1, 6)) for _ in range(rng.randint(0, 6))]
+        return dict(cigar=cigar, reference_bases=rng.randint(-1, 20))
+
+    def real(inp):
+        from whatshap.variants import ReadSetReader
+        try:
+            return ("ok", tuple(ReadSetReader.cigar_prefix_length(inp["cigar"], inp["reference_bases"])), {})
+        except Exception as e:      # noqa: BLE001
+            return ("raise", type(e).__name__)
+    return [Case("ReadSetReader.cigar_prefix_length", gen, real, n=150)]
